@@ -11,7 +11,7 @@ be involved) and `same` (all calls on one object, whose results are memoised by 
 Correspondence probes: the model's `argsort` and its inverse against numpy's stable argsort; for tiny state spaces
 the model's `cdf` / first-moment accumulation evaluated on the same unsorted vector.
 """
-import itertools, random, math
+import itertools, random, math, hashlib
 import numpy as np
 import pgcommon as C
 import conv, gen
@@ -156,7 +156,7 @@ def equal(ep, a, b, rel, abs_):
 def check_vector(ctx, pg, cfg, ep, ts, container, mode, coal_vec, coal_single, cache, order='vector-first'):
     """
     The oracle: vector call on `coal_vec`, one call per time on `coal_single`; reports a violation when position i of
-    the vector result is not the single-time value of ts[i].  Returns False when nothing could be compared.
+    the vector result is not the single-time value of ts[i].
     """
     detail = dict(cfg=cfg, entry_point=ep, times=[t for t in ts], container=container, mode=mode, order=order)
     arg = as_container(ts, container)
@@ -202,6 +202,11 @@ def check_vector(ctx, pg, cfg, ep, ts, container, mode, coal_vec, coal_single, c
                           tolerance=dict(rel=rel, abs=abs_), oracle='same call with the scalar time t', **detail)
             return True
     return True
+
+
+def digest(*key):
+    """short stable identifier of a distinct non-trivial case"""
+    return hashlib.sha1(repr(key).encode()).hexdigest()[:20]
 
 
 def involution(ts):
@@ -340,7 +345,7 @@ def run_cfg(ctx, pg, cfg, vecs, eps, rng, probes=True):
                             ctx.count(f'skipped:{type(e).__name__}:{ep.split(":")[0]}')
                             continue
                         ctx.case(dict(cfg=cfg, entry_point=ep, times=ts, container=container, mode=mode),
-                                 (gen.cfg_key(cfg), ep, tuple(float(t) for t in ts), container, mode) if nontrivial else None)
+                                 digest(gen.cfg_key(cfg), ep, tuple(float(t) for t in ts), container, mode) if nontrivial else None)
                         ctx.count(f'ep:{ep.split(":")[0]}'); ctx.count(f'kind:{kind}'); ctx.count(f'container:{container}')
                         ctx.count(f'mode:{mode}')
                         if len(ctx.violations) > 40:
@@ -390,7 +395,7 @@ def one(ctx, item):
 
 def run(ctx):
     import check
-    items = list(range(160 if ctx.quick else 1200))
+    items = list(range(160 if ctx.quick else 900))
     if not ctx.quick:
         items += [f'perm5-{i}' for i in range(48)]
     check.pmap(ctx, 'props.c07', 'one', items, case_timeout=200 if ctx.quick else 900)
